@@ -211,6 +211,9 @@ func (d *DeviceRemote) AddEntityAndFeatures(initialData bool, data *model.NodeMa
 
 		entity := d.Entity(entityAddress)
 		if entity == nil {
+			if ei.Description.EntityType == nil {
+				return nil, errors.New("nodemanagement.replyDetailedDiscoveryData: invalid EntityInformation.Description.EntityType")
+			}
 			entity = d.addNewEntity(*ei.Description.EntityType, entityAddress)
 			rEntites = append(rEntites, entity)
 		}
@@ -229,6 +232,9 @@ func (d *DeviceRemote) AddEntityAndFeatures(initialData bool, data *model.NodeMa
 		entity.RemoveAllFeatures()
 
 		for _, fi := range data.FeatureInformation {
+			if fi.Description == nil || fi.Description.FeatureAddress == nil {
+				continue
+			}
 			if reflect.DeepEqual(fi.Description.FeatureAddress.Entity, entityAddress) {
 				if f, ok := unmarshalFeature(entity, fi); ok {
 					entity.AddFeature(f)
@@ -276,7 +282,9 @@ func unmarshalFeature(entity api.EntityRemoteInterface,
 
 	fid := featureData.Description
 
-	if fid == nil {
+	if fid == nil ||
+		fid.FeatureAddress == nil || fid.FeatureAddress.Feature == nil ||
+		fid.FeatureType == nil || fid.Role == nil {
 		return nil, false
 	}
 
